@@ -59,7 +59,7 @@ open ChamVerif
 converted value of `e`, evaluated once with `__token` pointing at it (no implicit translation) -/
 theorem C06_interp_value (cfg : ECfg) (al : List (Str × Val)) (env : Env) (f : Nat) (tok tokE : Tok) (pre post text : Str) (te : TExpr)
     (esc : Esc) (d : Option Str)
-    (hparts : compileInterp cfg.tc 64 tok true true = .ok [.lit pre, .expr te tokE text, .lit post]) :
+    (hparts : compileInterp cfg.tc 64 tok true cfg.tc.decodeInterp = .ok [.lit pre, .expr te tokE text, .lit post]) :
     evalEN cfg al env (f + 1) (.interp tok esc d true true false) =
       (do xSetToken tok
           xSetToken tokE
@@ -120,7 +120,7 @@ theorem convPartX_str (cfg : ECfg) (env : Env) (site : Site) (esc : Esc) (d : Op
 escaping of C02 (`C02_no_raw`, `C02_roundtrip` speak about it) -/
 theorem C06_interp_text_escaped (cfg : ECfg) (al : List (Str × Val)) (env : Env) (f : Nat) (tok tokE : Tok) (pre post text : Str) (te : TExpr)
     (s : Str) (x x1 : XState)
-    (hparts : compileInterp cfg.tc 64 tok true true = .ok [.lit pre, .expr te tokE text, .lit post])
+    (hparts : compileInterp cfg.tc 64 tok true cfg.tc.decodeInterp = .ok [.lit pre, .expr te tokE text, .lit post])
     (hev : evalT cfg al env 61 te .text none { x with token := some ((Tok.strip tokE).pos, (Tok.strip tokE).str.length) } = .ok (.str s) x1) :
     evalEN cfg al env (f + 1) (.interp tok .text none true true false) x =
       .ok (.str (pre ++ (Site.text.quote s ++ (post ++ [])))) x1 := by
